@@ -615,6 +615,39 @@ func hiViolKey(cs hiCaseT) string {
 	return "jws/header-injection/" + hiKind(cs.Member) + "/" + w
 }
 
+// hiControlAccepted is consulted only when a violation is about to be recorded,
+// to choose its key: is the very same tamper, verified with the same key, also
+// accepted on a fresh genuine object that carries no injected member?
+var hiControlCache = map[string]bool{}
+
+func hiControlAccepted(c *hl.Ctx, cs hiCaseT, recs []msRecT, payload []byte, tamper string, bit, sig int, kn string) (accepted bool) {
+	cs0 := cs
+	cs0.Member, cs0.On = "none", "0"
+	ck := fmt.Sprintf("%s/%d/%s/%s/%s/%s/%d/%d/%s", cs.Set, cs.Size, cs.Origin, cs.Pres, cs.Where, tamper, bit, sig, kn)
+	if v, ok := hiControlCache[ck]; ok {
+		return v
+	}
+	defer func() { hiControlCache[ck] = accepted }()
+	hl.Try(func() {
+		g0, err := hiBuild(cs0, recs, payload)
+		if err != nil {
+			return
+		}
+		hiTampers(c, cs0, recs, g0, cs0.Where != "ualg", func(t string, b, sg int, o hiObjT, _ []string) {
+			if t != tamper || b != bit || sg != sig || accepted {
+				return
+			}
+			p, err := jose.ParseSigned(o.serialise(cs0.Pres))
+			if err != nil {
+				return
+			}
+			_, err = p.Verify(hiKeyByName(recs, kn))
+			accepted = err == nil
+		})
+	})
+	return
+}
+
 // hiPresent parses one presented text and verifies it with the named keys.
 func hiPresent(c *hl.Ctx, cs hiCaseT, recs []msRecT, payload []byte, tamper string, bit, sig int, text string, keyNames []string) {
 	c.Add("hinj_presentations", 1)
@@ -660,7 +693,11 @@ func hiPresent(c *hl.Ctx, cs hiCaseT, recs []msRecT, payload []byte, tamper stri
 		}
 		c.Nontrivial(fmt.Sprintf("hi/%s/%d/%s/%s/%s/%s/%s/%s/%d/%d/%s", cs.Set, cs.Size, cs.Origin, cs.Pres, cs.Where, cs.Member, cs.On, tamper, bit, sig, kn))
 		if verr == nil {
-			viol(c, hiViolKey(cs), fmt.Sprintf("%s; %s: Verify with %s returned %d payload octets %s and NO error. The presented payload / signature value / key is not the one of the genuine object, so nothing was verified; expected an error whatever the header members say. Presented object: %s", hiDesc(cs, payload), hiTamperDesc(tamper, bit, sig), hiKeyDesc(recs, kn), len(out), hl.Hex(out), short(text)), vc)
+			key, note := hiViolKey(cs), "The same tamper on the same object WITHOUT the injected member is refused, so the header member is what switches the check off."
+			if hiControlAccepted(c, cs, recs, payload, tamper, bit, sig, kn) {
+				key, note = "jws/forgery-accepted/"+tamper, "The same tamper is accepted on the object without any injected member as well, so the header member is not the cause."
+			}
+			viol(c, key, fmt.Sprintf("%s; %s: Verify with %s returned %d payload octets %s and NO error. The presented payload / signature value / key is not the one of the genuine object, so nothing was verified; expected an error whatever the header members say. %s Presented object: %s", hiDesc(cs, payload), hiTamperDesc(tamper, bit, sig), hiKeyDesc(recs, kn), len(out), hl.Hex(out), note, short(text)), vc)
 		}
 	}
 }
